@@ -328,6 +328,31 @@ func TestC13(t *testing.T) {
 	}
 	ev.Check(t, "c13_char", ev.N(24000, 300000), c13Gen, c13WithSiblings)
 	ev.Check(t, "c13_bands", ev.N(16000, 200000), c13BandGen, c13Run)
+	// the refusal threshold, scanned: one attempt succeeds with probability k/u
+	ev.Fixed(t, "c13_threshold_scan", func(do func(c13Case) bool) {
+		for u := 2; u <= 220; u++ {
+			if u%ev.Cfg.NShards != ev.Cfg.Shard {
+				continue
+			}
+			for k := 1; k < u && k*8 <= u*2; k++ { // k/u <= 0.25
+				if ev.Cfg.Tier != "thorough" && (k*1000 < u*60 || k*1000 > u*140) {
+					continue // quick: only the neighbourhood of the default threshold (0.06 .. 0.14)
+				}
+				sp := oracle.CharSpec{Length: 1}
+				for i := 0; i < u; i++ {
+					ch := string(rune(0x4E00 + i))
+					if i < k {
+						sp.RequireSets = []string{sp.RequireSetsOrEmpty() + ch}
+					} else {
+						sp.AllowChars += ch
+					}
+				}
+				if !do(c13Case{Spec: sp, MaxTrials: 200, MaxFail: 1e-9, Key: uint64(u*1000 + k)}) {
+					return
+				}
+			}
+		}
+	}, c13Run)
 	ev.Check(t, "c13_wl", ev.N(8000, 80000), func(t *rapid.T) c13WL {
 		return c13WL{
 			Kind:   rapid.IntRange(0, 3).Draw(t, "kind"),
